@@ -324,6 +324,18 @@ func checkBinarySearch(c *Ctx, r *Rec, info *types.Info, set *types.Named, fd *a
 				}
 			}
 		case *ast.CallExpr:
+			// a method value kept in a local:  rank := v.collator_.RankValues ... rank(value, candidate)
+			if id, ok := ast.Unparen(x.Fun).(*ast.Ident); ok && len(x.Args) == 2 {
+				if init := initOf(info, fd, id); init != nil {
+					if se, ok := ast.Unparen(init).(*ast.SelectorExpr); ok && se.Sel.Name == "RankValues" {
+						rankCall = x
+						for _, a := range x.Args {
+							env.eval(env.cur, a)
+						}
+						return Val{Lin: linSym("rank")}, true
+					}
+				}
+			}
 			if rx, mname, call, ok := methodCall(x); ok {
 				if mname == "GetValue" && len(call.Args) == 1 && recvRooted(info, rx, recv) {
 					idx := env.eval(env.cur, call.Args[0])
@@ -351,7 +363,21 @@ func checkBinarySearch(c *Ctx, r *Rec, info *types.Info, set *types.Named, fd *a
 		fail("the search step does not rank the sought value against the probed candidate")
 		return
 	}
-	if rx, _, _, _ := methodCall(rankCall); selectorField(info, rx) != collF {
+	rankRecv := func() ast.Expr {
+		if rx, _, _, ok := methodCall(rankCall); ok {
+			return rx
+		}
+		// a method value kept in a local
+		if id, ok := ast.Unparen(rankCall.Fun).(*ast.Ident); ok {
+			if init := initOf(info, fd, id); init != nil {
+				if se, ok := ast.Unparen(init).(*ast.SelectorExpr); ok {
+					return se.X
+				}
+			}
+		}
+		return nil
+	}()
+	if rankRecv == nil || selectorField(info, rankRecv) != collF {
 		fail("the ranking is not done by the set's own collator field")
 		return
 	}
